@@ -1,6 +1,7 @@
 package main
 
 import (
+	"errors"
 	"reflect"
 	"strings"
 	"unsafe"
@@ -40,8 +41,29 @@ func access(m interface{}, write bool) {
 	mc.Access(unsafe.Pointer(v.Pointer()), write)
 }
 
+// failCloner fails the copy of one particular message (the application's cloner / codec may refuse a message it
+// cannot handle): Copy of a source whose payload is the given tag returns an error.
+type failCloner struct {
+	inner inprocgrpc.Cloner
+	tag   string
+}
+
+func (f failCloner) Copy(out, in interface{}) error {
+	if m, ok := in.(*Msg); ok && untag(m.Payload) == f.tag {
+		return errors.New("cloner: cannot copy this message")
+	}
+	return f.inner.Copy(out, in)
+}
+func (f failCloner) Clone(in interface{}) (interface{}, error) { return f.inner.Clone(in) }
+
 func hooksFor(sc *Scenario) *hooks {
 	var inner inprocgrpc.Cloner = inprocgrpc.ProtoCloner{}
+	if i := strings.Index(sc.Cloner, "failcopy:"); i >= 0 {
+		inner = failCloner{inner, sc.Cloner[i+len("failcopy:"):]}
+		if !strings.Contains(sc.Cloner, "recording") && !strings.Contains(sc.Cloner, "yield") {
+			return &hooks{cloner: inner}
+		}
+	}
 	if strings.Contains(sc.Cloner, "yield") {
 		inner = yieldCloner{inner}
 	}
